@@ -52,7 +52,49 @@ def make_geo(kind, dim):
         return g.scale(2.0) if dim == 1 else g.scale(tuple([2.0, 0.5, 1.5][:dim]))
     if kind == 'shifted':
         return g.translate(tuple([1.0, -2.0, 0.5][:dim]))
+    if kind == 'curved':
+        if dim == 2:
+            return geometry.quarter_annulus()
+        from pyiga import bspline
+        import numpy as np
+        kv = bspline.make_knots(2, 0.0, 1.0, 1)
+        return bspline.BSplineFunc((kv,), np.array([[0.0], [0.3], [1.5]]))     # x(t) quadratic, monotone
     raise AssertionError(kind)
+
+
+def levelwise_reference(m, mats):
+    """Entry (i,j) of the hierarchical matrix = form applied to HB functions j and i
+    with the quadrature of the FINER of their two levels:  want[i,j] = (I_k^T A_k I_k)[i,j],
+    k = max(level i, level j), I_k = HB representation on level k (independent model)."""
+    import numpy as np
+    L = m.L
+    nact = [len(m.functions(l)[0]) for l in range(L)]
+    off = np.concatenate(([0], np.cumsum(nact)))
+    nd = int(off[-1])
+    want = np.zeros((nd, nd))
+    for k in range(L):
+        Ik = m.represent_fine_hb(lv=k)
+        Bk = (Ik.T @ mats[k] @ Ik)
+        Bk = Bk.toarray() if hasattr(Bk, 'toarray') else np.asarray(Bk)
+        n_upto = int(off[k + 1])            # active functions of levels <= k come first in I_k's columns
+        Bk = Bk[:n_upto, :n_upto]
+        lo = int(off[k])
+        want[lo:n_upto, :n_upto] = Bk[lo:n_upto, :]
+        want[:n_upto, lo:n_upto] = Bk[:, lo:n_upto]
+    return want
+
+
+def levelwise_reference_vec(m, vecs):
+    import numpy as np
+    L = m.L
+    nact = [len(m.functions(l)[0]) for l in range(L)]
+    off = np.concatenate(([0], np.cumsum(nact)))
+    want = np.zeros(int(off[-1]))
+    for k in range(L):
+        Ik = m.represent_fine_hb(lv=k)
+        bk = np.asarray(Ik.T @ vecs[k]).ravel()
+        want[int(off[k]):int(off[k + 1])] = bk[int(off[k]):int(off[k + 1])]
+    return want
 
 
 _COMPILE_SNIPPET = r'''
@@ -114,13 +156,18 @@ class State:
             return True
         q = ctx.ch.stream('data')
         if self.geo_kind is None:
-            self.geo_kind = q.weighted([('identity', 3), ('scaled', 2), ('shifted', 1)])
+            self.geo_kind = q.weighted([('identity', 3), ('scaled', 2), ('shifted', 1), ('curved', 3)])
             ctx.count('geo.' + self.geo_kind)
         geo = make_geo(self.geo_kind, dim)
         pmin = min(cfg['degs'])
 
+        curved = self.geo_kind == 'curved'
+
         def f(*x):
-            # polynomial of degree <= 1 per direction (so <= p+1 for every p >= 1)
+            # polynomial of degree <= 1 per direction (so <= p+1 for every p >= 1);
+            # on the curved geometry (level-wise quadrature oracle) a non-polynomial one
+            if curved:
+                return 1.0 + np.sin(2.0 * x[0]) + 0.5 * np.cos(x[-1])
             return 1.0 + 0.5 * x[0] - 0.25 * x[-1]
         args = {'geo': geo, 'f': f}
         name = ALLFORMS[q.choice(len(ALLFORMS))]
@@ -150,6 +197,10 @@ class State:
             if b is RAISED():
                 return False
             want = IM.T @ b_f
+            if curved:
+                want = levelwise_reference_vec(m, [assemble.assemble(make_form('l2', dim), hs.knotvectors(k), geo=geo, f=f).ravel()
+                                                   for k in range(L)])
+                ctx.count('oracle.levelwise-quadrature')
             if trunc:
                 want = T.T @ want
             b = np.asarray(b, float).ravel()
@@ -182,13 +233,17 @@ class State:
         if A is RAISED():
             return False
         want = (IM.T @ A_f @ IM)
+        if curved:
+            want = sp.csr_matrix(levelwise_reference(m, [assemble.assemble(make_form(name, dim), hs.knotvectors(k), geo=geo)
+                                                         for k in range(L)]))
+            ctx.count('oracle.levelwise-quadrature')
         if trunc:
             want = T.T @ want @ T
         sc = max(1e-300, maxabs(want))
         ok = (A.shape == want.shape)
         err = maxabs(A - want) if ok else -1
         ctx.check(ok and err <= 1e-10 * sc, 'matrix-galerkin',
-                  lambda: '%s via %s, symmetric=%s, truncate=%s, %d levels, disparity %s, geo %s: differs from I^T A_fine I by %.3g '
+                  lambda: '%s via %s, symmetric=%s, truncate=%s, %d levels, disparity %s, geo %s: differs from the reference (I^T A_fine I, or the level-wise quadrature rule on curved geometry) by %.3g '
                   '(scale %.3g), history %s' % (name, via, symflag, trunc, L, cfg['disparity'], self.geo_kind, err, sc, w.history),
                   dict(sig, truncate=trunc, symmetric=symflag))
         if symmetric_form:
